@@ -298,14 +298,20 @@ def transfer_timeout_rule(eng: Engine, ck: Check):
     big = cval(eng.repo, eng.func(CONN, 'PeerConnection.send_file'), ast.Name('TRANSFER_TIMEOUT', ast.Load()))
 
     def reach(start: FuncInfo, sink: str) -> list[tuple[FuncInfo, ast.Call, Optional[ast.AST]]]:
-        """(function, sink call, timeout expression) for every call of `sink` reachable from `start` through methods of the connection"""
-        out, seen, todo = [], set(), [start]
+        """(function, sink call, timeout expression) for every call of `sink` reachable from `start` through methods of the connection.  The
+        walk is context sensitive for parameters: a callee's parameter stands for the argument (or default) of the call that led there,
+        so `send_message(data, timeout=TRANSFER_TIMEOUT)` -> `_send(data, timeout=timeout)` is judged as TRANSFER_TIMEOUT."""
+        out, seen, todo = [], set(), [(start, {})]
         while todo:
-            f = todo.pop()
-            if f in seen:
+            f, env = todo.pop()
+            key = (f, tuple(sorted((k_, unparse(v_) if v_ is not None else None) for k_, v_ in env.items())))
+            if key in seen or len(seen) > 24:
                 continue
-            seen.add(f)
+            seen.add(key)
             ck.visited(f)
+
+            def resolve(t):
+                return env.get(t.id, t) if isinstance(t, ast.Name) and t.id in env else t
             for x in calls_in(f.node):
                 if not (isinstance(x.func, ast.Attribute) and unparse(x.func.value) in ('self', 'super()')):
                     continue
@@ -316,9 +322,23 @@ def transfer_timeout_rule(eng: Engine, ck: Check):
                         ps = [p_ for p_ in callee.params if p_ != 'self']
                         if 'timeout' in ps and ps.index('timeout') < len(x.args):
                             t = x.args[ps.index('timeout')]
-                    out.append((f, x, t))
+                    out.append((f, x, resolve(t) if t is not None else None))
                 else:
-                    todo += [c for c in eng.res.callees(x, f) if c.cls is not None and c.cls in eng.repo.mro(pc) and len(seen) < 12]
+                    for c in eng.res.callees(x, f):
+                        if c.cls is None or c.cls not in eng.repo.mro(pc):
+                            continue
+                        a_ = c.node.args
+                        ps = [p_.arg for p_ in a_.posonlyargs + a_.args][1:]
+                        dflt = dict(zip([p_.arg for p_ in a_.args][len(a_.args) - len(a_.defaults):], a_.defaults))
+                        dflt.update({p_.arg: d_ for p_, d_ in zip(a_.kwonlyargs, a_.kw_defaults) if d_ is not None})
+                        env2 = dict(dflt)
+                        for p_, v_ in zip(ps, x.args):
+                            env2[p_] = resolve(v_)
+                        for k_ in x.keywords:
+                            if k_.arg:
+                                env2[k_.arg] = resolve(k_.value)
+                        stores = {n_.id for n_ in ast.walk(c.node) if isinstance(n_, ast.Name) and isinstance(n_.ctx, ast.Store)}
+                        todo.append((c, {k_: v_ for k_, v_ in env2.items() if k_ not in stores}))
         return out
 
     def long_enough(f: FuncInfo, t: Optional[ast.AST]) -> bool:
